@@ -36,8 +36,12 @@ def bounds(tier):
             "thorough": "full regime alphabet, 3 natural frequencies, all incrb forms, complex variants"}.get(tier, "")
 
 
-def freq_sets(fn_list):
+def freq_sets(fn_list, has_rb=True):
     out = {"zero": np.array([0.0]), "zero+f": np.array([0.0, 3.3]), "three": np.array([0.13, 1.1, 10.3])}
+    if has_rb:
+        # 0 Hz anywhere in the vector, and more than once (rigid-body d, v are zeroed at exactly those columns)
+        out["zero-mid"] = np.array([1.1, 0.0, 3.3])
+        out["zero-twice"] = np.array([0.0, 2.0, 0.0])
     if fn_list:
         out["resonance"] = np.array(sorted(set(fn_list)))
     # frequencies in any order, with a repeated value (nothing in the documentation asks for a sorted vector)
@@ -160,7 +164,7 @@ def run_system(sysd, tier, res, fsets=None):
     n = K.shape[0]
     diag = sysd["diag"]
     args = (np.diag(M).copy(), np.diag(B).copy(), np.diag(K).copy()) if diag else (M, B, K)
-    fsets = fsets or freq_sets(sysd.get("fn", []))
+    fsets = fsets or freq_sets(sysd.get("fn", []), bool(rb))
     rfarg = rf if rf else None
     coupled_eig = not diag
     condv = sysd.get("condv", 1.0)
@@ -289,13 +293,22 @@ def systems(tier):
     rfb, rfc = dict(c01.rf_mode(2.0), k=9.0e5), dict(c01.rf_mode(1.0), k=2.5e6)
     out.append(modal_to_sys([c01.el_mode("u.5", whs[0], 0.5, 1.0), c01.rf_mode(1.0), rfb, rfc], "el+rf3"))
     out.append(modal_to_sys([rfc, c01.rf_mode(1.0), rfb, c01.el_mode("o1.5", whs[-1], 1.5, 2.0), c01.rb_mode("rb0", 0.0, 2.0)], "rf3+el+rb"))
+    # rigid-body modes that are not contiguous (index-vector partitions), and complex diagonal coefficients with rb / rf modes
+    nc = [c01.rb_mode("rb0", 0.0, 2.0), c01.el_mode("u.01", whs[0], 0.01, 1.0), c01.rb_mode("rb0", 0.0, 3.0), c01.rf_mode(1.0), c01.el_mode("o1.5", whs[-1], 1.5, 0.5)]
+    out.append(modal_to_sys(nc, "rb-el-rb-rf-el"))
+    out.append(modal_to_sys([nc[1], nc[0], nc[4], nc[2]], "el-rb-el-rb"))
+    for which in "MBK":
+        for nm_, lst in (("rb-el-rb-rf-el", nc), ("rb-rb-el", [nc[0], nc[2], nc[4]]), ("el-rf-rb", [nc[1], nc[3], nc[0]])):
+            sd = modal_to_sys(lst, "cplx%s-%s" % (which, nm_))
+            sd[which] = sd[which] * (1 + 0.03j)
+            out.append(sd)
     # damped rigid-body mode (see known findings)
     out.append(modal_to_sys([c01.rb_mode("rb.5", 0.5, 2.0), c01.el_mode("u.5", whs[0], 0.5, 1.0)], "rbdamped+el"))
     # coupled physical-space systems (complex-mode path), real and complex coefficients
     zs = [("u.01", 0.01), ("u.5", 0.5), ("o1.5", 1.5)] if tier == "quick" else [("u0", 0.0), ("u.01", 0.01), ("u.5", 0.5), ("crit", 1.0), ("o1.5", 1.5), ("o20", 20.0)]
     for (n1, z1), (n2, z2) in itertools.product(zs, zs):
         for ti in (0, 1):
-            for variant in ("prop", "nonprop", "cplxK", "cplxB"):
+            for variant in ("prop", "nonprop", "cplxK", "cplxB", "cplxM"):
                 modes = [c01.el_mode(n1, whs[0], z1, 1.0), c01.el_mode(n2, whs[-1] * 1.3, z2, 1.0)]
                 T = c01.TRANS[2][ti]
                 M = T.T @ np.diag([1.0, 1.0]) @ T
@@ -308,6 +321,8 @@ def systems(tier):
                     K = K * (1 + 0.04j)
                 if variant == "cplxB":
                     B = B * (1 + 0.1j)
+                if variant == "cplxM":  # complex mass with real damping and stiffness
+                    M = M * (1 + 0.03j)
                 A = np.zeros((4, 4), complex)
                 A[:2, :2] = -np.linalg.solve(M, B)
                 A[:2, 2:] = -np.linalg.solve(M, K)
@@ -411,7 +426,7 @@ def run_solvepsd(tier, res):
         forcepsd, t_frc, drmf = variants[vname]
         nfrc = forcepsd.shape[0]
         drms = drms[:3] + [drmf]
-        for rbduf, elduf, solver, incrb in itertools.product((1.0, 1.2), (1.0, 1.2), ("SolveUnc", "FreqDirect"), ("dva", "a")):
+        for rbduf, elduf, solver, incrb in itertools.product((0.8, 1.0, 1.2), (0.5, 1.0, 1.2), ("SolveUnc", "FreqDirect"), ("dva", "a")):
             case = dict(part="solvepsd", variant=vname, pattern=list(pattern), rbduf=rbduf, elduf=elduf, solver=solver, incrb=incrb)
             quad = tuple(drms[i] if pattern[i] else None for i in range(4))
             try:
@@ -496,7 +511,7 @@ def replay(case):
     tier = case["tier"]
     if case["part"] == "sys":
         S = systems(tier)[case["sys"]]
-        fs = freq_sets(S.get("fn", []))
+        fs = freq_sets(S.get("fn", []), bool(S["rb"]))
         out = run_system(S, tier, res, fsets={case["fset"]: fs[case["fset"]]})
         return [m for ex, m in out if ex["incrb"] == case["incrb"] and ex["solver"] == case["solver"] and ex["force"] == case["force"]
                 and ex["rf_disp_only"] == case["rf_disp_only"]]
